@@ -1,6 +1,7 @@
 import Naga.Model.Bitcode
 import Naga.Model.Container
 import Naga.Model.Psv
+import Naga.Model.BitcodeSem
 /-
 C18 — whole-output validator: every structural claim of the property as a decidable check on the
 bytes returned by `dxil.Compile`.  Core Lean only.
@@ -46,6 +47,10 @@ def check (kind major minorReq : Nat) (bypass : Bool) (bs : List Nat) : Option S
               else if !(items.any (fun i => match i with | .block 8 _ _ => true | _ => false))
               then some "bitcode: no MODULE_BLOCK"
               else
+                -- every operand index names a defined type, value, metadata node or basic block
+                match BitcodeSem.checkModule items with
+                | some why => some ("bitcode operands: " ++ why)
+                | none =>
                 -- pipeline-state validation part: must walk to exactly its end by its own counts
                 match findPart Psv.ccPSV0 parts with
                 | [] => none
